@@ -401,12 +401,22 @@ func VerifH12b() {
 	input = append(input, nondetBytes(vChoose(6))...)
 	w := &vWorld{parseMenu: 2, execMenu: 2}
 	mw := 0
+	// every hook an embedder can configure is a callback: session middleware,
+	// authentication strategy, connection-close and terminate hooks
+	hooks := 0
 	srv, err := NewServer(w.parse, MessageBufferSize(64),
-		SessionMiddleware(func(ctx context.Context) (context.Context, error) { mw++; return ctx, nil }))
+		SessionMiddleware(func(ctx context.Context) (context.Context, error) { mw++; return ctx, nil }),
+		SessionAuthStrategy(func(ctx context.Context, writer *buffer.Writer, reader *buffer.Reader) (context.Context, error) {
+			hooks++
+			return ctx, nil
+		}),
+		CloseConn(func(ctx context.Context) error { hooks++; return nil }),
+		TerminateConn(func(ctx context.Context) error { hooks++; return nil }))
 	vAssert("newserver-ok", err == nil)
 	conn := vNewConn(input)
 	srv.serve(context.Background(), conn) //nolint
 	vAssert("closed", conn.closed >= 1)
+	vAssert("no-hook-invoked", hooks == 0)
 	if afterSSL == 1 {
 		vAssert("only-the-ssl-refusal", len(conn.out) == 1 && conn.out[0] == 'N')
 		vReach("cancel-after-ssl")
@@ -724,11 +734,17 @@ func VerifH19e() {
 	}
 	srv, err := NewServer(w.parse, opts...)
 	vAssert("newserver-ok", err == nil)
+	// statement and portal are the unnamed ones or named ones (symbolic names):
+	// a named object outlives its command, the command's context does not
+	sn, pn := vSymName(), vSymName()
 	input := vCat(vStartup(vKV([]byte("user"), []byte("u"))),
-		vMsgBytes('P', vCat(vCStr(nil), vCStr([]byte("q")), vU16(0))),
-		vMsgBytes('B', vCat(vCStr(nil), vCStr(nil), vU16(0), vU16(0), vU16(0))),
-		vMsgBytes('E', vCat(vCStr(nil), vU32(0))),
+		vMsgBytes('P', vCat(vCStr(sn), vCStr([]byte("q")), vU16(0))),
+		vMsgBytes('B', vCat(vCStr(pn), vCStr(sn), vU16(0), vU16(0), vU16(0))),
+		vMsgBytes('E', vCat(vCStr(pn), vU32(0))),
 		vMsgBytes('S', nil))
+	if len(sn) > 0 && len(pn) > 0 {
+		vReach("named-statement-and-portal")
+	}
 	conn := vNewConn(input)
 	srv.serve(context.Background(), conn) //nolint
 	execs := 0
